@@ -241,6 +241,7 @@ class Generator:
         for c in edits:
             if c.startswith("//@rewrite"):
                 body = self._apply_cont_rewrite(c, body, rules, it)
+        body = self._generic_desugar(body, rules)
         body = self._rewrite_macros(body, rules, od=False)
         for c in edits:
             if c.startswith("//@before") or c.startswith("//@after"):
@@ -259,6 +260,7 @@ class Generator:
         g.lines.append("{")
         if getattr(self, "_broadcast", None):
             g.lines.append(" broadcast use {%s}; " % ", ".join(self._broadcast))
+            body = self._broadcast_in_loops(body)
         g.lines += body.split("\n")
         g.lines.append("}")
         g.lines.append("// <<<")
@@ -670,8 +672,66 @@ class Generator:
             i, v, e = m.group(1), m.group(2), m.group(3)
             return "for %s in 0..%s.len() { let %s = &%s[%s];" % (i, e, v, e, i)
         body = rx7.sub(r7, body)
+        body = self._desugar_break_value(body, rules)
         body = self._desugar_continue(body, rules)
         return body
+
+    def _desugar_break_value(self, body, rules):
+        """R8: `let V = loop { .. break E; .. };`  ->  `let V; loop { .. { V = E; break; } .. }`
+        (Verus: "complex break expressions" are unsupported).  V is assigned exactly once on every path that
+        leaves the loop, which rustc checks (deferred initialisation); semantics are unchanged."""
+        m = re.search(r"\blet\s+([A-Za-z_]\w*)\s*=\s*loop\s*\{", body)
+        if not m:
+            return body
+        var = m.group(1)
+        toks = code_tokens(lex(body))
+        pairs = match_brackets(toks)
+        # the loop's opening brace
+        open_idx = None
+        for i, t in enumerate(toks):
+            if t.start >= m.start() and t.text == "{":
+                open_idx = i
+                break
+        close_idx = pairs[open_idx]
+        # rewrite `break EXPR;` directly belonging to this loop (not to nested loops)
+        edits = []
+        depth_loops = []
+        i = open_idx + 1
+        nested = []   # (open, close) of nested loops
+        for k in range(open_idx + 1, close_idx):
+            t = toks[k]
+            if t.kind == "id" and t.text in ("for", "while", "loop") and not (k > 0 and toks[k - 1].text in (".", "::")):
+                j = k + 1
+                while j < close_idx and toks[j].text != "{":
+                    if toks[j].text in ("(", "["):
+                        j = pairs[j]
+                    j += 1
+                if j < close_idx:
+                    nested.append((j, pairs[j]))
+        def in_nested(k):
+            return any(o < k < c for o, c in nested)
+        for k in range(open_idx + 1, close_idx):
+            t = toks[k]
+            if t.kind == "id" and t.text == "break" and not in_nested(k) and toks[k + 1].text != ";":
+                j = k + 1
+                while toks[j].text != ";":
+                    if toks[j].text in ("(", "[", "{"):
+                        j = pairs[j]
+                    j += 1
+                expr = body[toks[k + 1].start:toks[j].start]
+                edits.append((toks[k].start, toks[j].end, "{ %s = %s; break; }" % (var, expr.strip())))
+        if not edits:
+            return body
+        # the statement ends with `};` after the loop's closing brace
+        after = toks[close_idx + 1] if close_idx + 1 < len(toks) else None
+        if after is None or after.text != ";":
+            raise AnchorLost("`let V = loop {..}` not followed by `;` (R8)")
+        out = body
+        for a, b, rep in sorted(edits, reverse=True):
+            out = out[:a] + rep + out[b:]
+        out = out[:m.start()] + "let %s; loop {" % var + out[m.end():]
+        rules.append("R8 `let %s = loop { .. break E; .. }` -> deferred initialisation + plain break" % var)
+        return out
 
     def _desugar_continue(self, body, rules):
         """R6: inside a loop body `{ PRE if COND { continue; } REST }`  ->  `{ PRE if COND { } else { REST } }`
